@@ -78,6 +78,36 @@ pub fn run(progs: &str, allcuts: bool, out: &str) -> std::io::Result<()> {
         t.ev(json!({"ev":"reset","run":pi,"name":prog["name"],"writes":writes.len(),
                     "finalize_in_program": if fin_call.is_some() {1} else {0},
                     "complete_opens": if complete_opens {1} else {0}}));
+        // the write sequence in the abstraction of CrashSpec.tla: (page, kind, finalize started)
+        // kind: hdr0 placeholder header, hdrF final header, hdrP header with final XML fields but another length,
+        // data = the page's final content, part = an earlier version of a page that is rewritten later
+        {
+            let fin_len = complete.len() as u64;
+            let (xoff, xlen) = if complete.len() >= 48 {
+                (u64::from_le_bytes(complete[24..32].try_into().unwrap()), u64::from_le_bytes(complete[32..40].try_into().unwrap()))
+            } else { (0, 0) };
+            let lo = xoff - 4 * (xoff / PAGE as u64);
+            let (xml_first, xml_last) = if xlen > 0 { (lo / PAYLOAD as u64, (lo + xlen - 1) / PAYLOAD as u64) } else { (1, 0) };
+            let mut ws: Vec<Value> = Vec::new();
+            let mut whole_pages = true;
+            for (j, (pos, data)) in writes.iter().enumerate() {
+                if pos % PAGE as u64 != 0 || data.len() != PAGE {
+                    whole_pages = false;
+                    continue;
+                }
+                let page = (pos / PAGE as u64) as usize;
+                let kind = if page == 0 {
+                    let xl = u64::from_le_bytes(data[32..40].try_into().unwrap());
+                    let xo = u64::from_le_bytes(data[24..32].try_into().unwrap());
+                    let pl = u64::from_le_bytes(data[16..24].try_into().unwrap());
+                    if xl == 0 { "hdr0" } else if xl == xlen && xo == xoff && pl == fin_len && data[..] == complete[..PAGE] { "hdrF" } else { "hdrP" }
+                } else if (page + 1) * PAGE <= complete.len() && data[..] == complete[page * PAGE..(page + 1) * PAGE] { "data" } else { "part" };
+                let fin = fin_call.map(|f| calls[j] >= f).unwrap_or(false);
+                ws.push(json!([page, kind, if fin {1} else {0}]));
+            }
+            t.ev(json!({"ev":"c15_writes","whole_pages": if whole_pages {1} else {0},"pages": complete.len() / PAGE,
+                        "xml_first": xml_first, "xml_last": xml_last, "writes": ws}));
+        }
         let mut judge = |img: &[u8], wj: usize, cut: usize, n: usize, fin_started: bool, t: &mut TraceOut| {
             let r = catch(|| E57Reader::new(Dev::from_bytes(img.to_vec())));
             let (accepted, lsame, ops) = match r {
